@@ -83,7 +83,7 @@ type Options struct {
 	WantStacks       bool          // capture full stacks of blocked goroutines at the end
 	NoExplore        bool          // start outside the explored window until BeginExplore
 	Trace            bool          // keep a textual event log
-	BoundAll   bool          // every departure from the default schedule costs one deviation, also at blocking points (delay bounding)
+	BoundAll         bool          // every departure from the default schedule costs one deviation, also at blocking points (delay bounding)
 	NoTimerDeviation bool          // timers never fire while a goroutine can run (no I/O stalls)
 }
 
@@ -797,3 +797,6 @@ func Quiesce() {
 	}, nil)
 	me.quiescing = false
 }
+
+// PendTag is the label of the operation the goroutine was last parked on.
+func (g *G) PendTag() string { return g.pendTag }
